@@ -467,3 +467,24 @@ func (ex *exec) blobString(n *jnode) value {
 	ex.blobStrs = append(ex.blobStrs, blobStr{n, kv})
 	return sym{kv, types.String}
 }
+
+func init() {
+	// golang.org/x/text/cases.Title(language.Und, cases.NoLower).String(s): upper-case the first letter of every word
+	reg("golang.org/x/text/cases.Title", returnZero)
+	reg("(golang.org/x/text/cases.Caser).String", func(ex *exec, fr *frame, fn *ssa.Function, a []value) value {
+		s, ok := a[1].(string)
+		if !ok {
+			panic(unsupported("cases.Title of a symbolic string"))
+		}
+		out := []rune(s)
+		start := true
+		for i, r := range out {
+			isWord := r == '\'' || r >= '0' && r <= '9' || r >= 'a' && r <= 'z' || r >= 'A' && r <= 'Z' || r > 127
+			if isWord && start && r >= 'a' && r <= 'z' {
+				out[i] = r - 'a' + 'A'
+			}
+			start = !isWord
+		}
+		return string(out)
+	})
+}
